@@ -830,6 +830,9 @@ def run_backend(drv, case) -> Outcome:
         eig_guess = None
         obs_objs = []
         dflt = case["dflt"]
+        omit_default = dflt == "default"       # documented constructor default: (1.0,)
+        if omit_default:
+            dflt = [1.0]
         dflt_arg = "Full" if dflt == "Full" else [float(x) for x in dflt]
         all_times = set()
         for i, o in enumerate(case["obs"]):
@@ -856,7 +859,9 @@ def run_backend(drv, case) -> Outcome:
         state_times = None if dflt == "Full" else sorted(all_times)
         state_obs = do.StateResult(evaluation_times=state_times, tag_suffix="ref")
         noise = case.get("noise")
-        kwargs = dict(observables=[state_obs] + obs_objs, default_evaluation_times=dflt_arg)
+        kwargs = dict(observables=[state_obs] + obs_objs)
+        if not omit_default:
+            kwargs["default_evaluation_times"] = dflt_arg
         if noise:
             kwargs["noise_model"] = NoiseModel(**noise)
         try:
@@ -894,7 +899,7 @@ def run_backend(drv, case) -> Outcome:
         solver_times = sorted({k / T for k in range(T + 1)} | {float(x) for x in all_times})
         state_ts = res.get_result_times(state_obs)
         out.detail = dict(T=T, eigenstates=eig, solver_times=solver_times[:12], stored={})
-        stored_state = res.state[-1]
+        stored_state = getattr(res, state_obs.tag)[-1]
         out.evaluations += 1
         if tuple(stored_state.eigenstates) != tuple(eig):
             out.fail("state-eigenbasis", f"stored states are labelled {stored_state.eigenstates}, the channels used "
@@ -973,7 +978,7 @@ def gen_backend(rng) -> dict:
         noise = dict(dephasing_rate=0.5)
     grid = [0.0, 0.1, 0.25, 0.3, 0.5, 0.7, 0.75, 0.9, 1.0]
     dflt = "Full" if label == "full" else sorted(rng.sample(grid, 2)) if label == "two-default-times" else \
-        [rng.choice([1.0, 1.0, 0.5])]
+        rng.choice([[1.0], [1.0], [0.5], "default"])
     obs = []
     for t in rng.sample(OBS_TYPES[:5] + ["bitstrings"], rng.randint(2, 4)):
         times = None if rng.random() < 0.4 else sorted(rng.sample(grid, rng.randint(1, 3)))
